@@ -6,8 +6,8 @@ from sa.model import AnalysisError, Unknown, norm, unwrap, EnumMember
 from sa.query import Facts, call_name, find_calls, try_fold, calls_in, defs_of, kwarg
 from sa.prov import Prov
 from sa.layout import Layout
-from .common import firmware, send_sites, protocol_classes, fold_local, answer_field
-from sa.decide import Walker, completions, cmp_parts, is_pure, values_at
+from .common import firmware, send_sites, protocol_classes, fold_local, answer_field, canon_text
+from sa.decide import Walker, completions, cmp_parts, is_pure, values_at, simplify_text
 from .c06 import _strip
 
 TECHNIQUE = ('provenance expansion + byte-layout normalisation of every payload sent by the sign exchanges, '
@@ -626,7 +626,11 @@ def _wiring(run, PV, fw, D):
                             if p_ is None:
                                 continue
                             full = env.path_of(x)
-                            okw = full == ("keyId",) and isinstance(n_, ast.Assign) and norm(n_.value) == "BIP32Path(request['keyId'])"
+                            okw = False
+                            if full == ("keyId",) and isinstance(n_, ast.Assign):
+                                gm_ = A.cfg(m, pc)
+                                vs_ = {_strip(x) for cn_ in gm_.nodes_of(n_) for x in PV.expand_consistent(m, pc, n_.value, cn_, stop=("request",))}
+                                okw = vs_ == {_strip("BIP32Path(request['keyId'])")}
                             run.check("R4", okw, "the only store into the request is the key id parse", key=f"{m.qualname}|request-mutated|{'.'.join(full or p_)}",
                                       where=m.loc(n_), message=f"{m.qualname} rewrites the client's request field `{'.'.join(full or p_) or 'request'}` "
                                       f"(`{norm(n_)[:80]}`): the value relayed to the device is no longer the one the client sent")
@@ -666,34 +670,39 @@ def signature_parser(run, F, PV, rid="R5"):
     ini = P.method(S, "__init__")
     g = A.cfg(ini, S)
     b = ini.params[1]
-    exp = {"rbytes": f"{b}[4:4 + {b}[3]]", "sbytes": f"{b}[6 + {b}[3]:6 + {b}[3] + {b}[5 + {b}[3]]]"}
+    from sa.canon import canon_sums
+
+    def cs_(t):
+        return _strip(canon_sums(canon_text(run, ini, S, simplify_text(t), locals_=set(PV.defs(ini, S)) | set(ini.params))))
+    # what is stored as r / s: the hex of the two slices, whatever temporaries (r_len, offsets, an extracted integer parser) are used on the way;
+    # index arithmetic is compared in canonical form (4 + n + 2 is 6 + n)
+    exp = {"self._r": f"{b}[4:4 + {b}[3]].hex()", "self._s": f"{b}[6 + {b}[3]:6 + {b}[3] + {b}[5 + {b}[3]]].hex()"}
+    stores_ = [n for n in A.own_nodes(ini) if isinstance(n, ast.Assign) and norm(n.targets[0]).startswith("self.")]
+    got_st = {}
+    for n in stores_:
+        for dn in g.nodes_of(n):
+            got_st.setdefault(norm(n.targets[0]), set()).update(cs_(x) for x in PV.expand_consistent(ini, S, n.value, dn))
     for nm, w in exp.items():
-        ds = defs_of(A, ini, nm)
-        ok = len(ds) == 1
-        if ok:
-            for dn in g.nodes_of(ds[0]):
-                got = {_strip(x) for x in PV.expand_consistent(ini, S, ds[0].value, dn)}
-                ok = got == {_strip(w)}
-        run.check(rid, ok, f"{nm} slice", key=f"HSM2DongleSignature|{nm}", where=ini.loc(), message=f"{nm} is not `{w}`")
-    st = {norm(n.targets[0]): norm(n.value) for n in A.own_nodes(ini) if isinstance(n, ast.Assign) and norm(n.targets[0]).startswith("self.")}
-    run.check(rid, st == {"self._r": "rbytes.hex()", "self._s": "sbytes.hex()"}, "r/s stored as hex of their slices", key="HSM2DongleSignature|stores",
-              where=ini.loc(), message=f"HSM2DongleSignature stores {st}")
+        run.check(rid, got_st.get(nm) == {cs_(w)}, f"{nm} slice", key=f"HSM2DongleSignature|{'rbytes' if nm == 'self._r' else 'sbytes'}", where=ini.loc(),
+                  message=f"{nm} is {sorted(got_st.get(nm, []))[:1]}, not `{w}`")
+    run.check(rid, set(got_st) == set(exp), "r/s stored as hex of their slices", key="HSM2DongleSignature|stores",
+              where=ini.loc(), message=f"HSM2DongleSignature stores {sorted(got_st)}")
     for prop, fld in (("r", "_r"), ("s", "_s")):
         pf = P.method(S, prop)
         rr = [n for n in A.own_nodes(pf) if isinstance(n, ast.Return)]
         run.check(rid, len(rr) == 1 and norm(rr[0].value) == f"self.{fld}", f"property {prop}", key=f"HSM2DongleSignature.{prop}|getter", where=pf.loc(),
                   message=f"HSM2DongleSignature.{prop} does not return self.{fld} (r and s swapped?)")
     # facts on every normal exit, with locals (r_len, s_len, temporaries) expanded to what they stand for
-    ef = {_strip(t) for t in F.exit_texts(ini, S, PV)}
+    ef = {cs_(t) for t in F.exit_texts(ini, S, PV)}
     rl = f"{b}[3]"
     required = (f"len({b}) >= 2", f"{b}[0] in [48, 49]", f"len({b}[2:]) >= {b}[1]", f"{b}[2] == 2", f"len({b}[4:]) >= {b}[3]",
                 f"{b}[4 + {rl}] == 2", f"len({b}[6 + {rl}:]) >= {b}[5 + {rl}]")
     for w in required:
-        run.check(rid, _strip(w) in ef, f"DER check `{w}`", key=f"HSM2DongleSignature|check|{w}", where=ini.loc(),
+        run.check(rid, cs_(w) in ef, f"DER check `{w}`", key=f"HSM2DongleSignature|check|{w}", where=ini.loc(),
                   message=f"the DER parser no longer requires `{w}`")
     # closed world: nothing else is demanded of a signature (DER integers are minimal - R or S of 31 bytes and less are genuine; the device's
     # SUCCESS answer must not be turned into an error by an extra `sanity` condition)
-    allowed = {_strip(w) for w in required} | {_strip(f"len({b}[2:]) >= 2"), _strip(f"len({b}[4 + {rl}:]) >= 2")}
+    allowed = {cs_(w) for w in required} | {cs_(f"len({b}[2:]) >= 2"), cs_(f"len({b}[4 + {rl}:]) >= 2")}
     locs_ = set(PV.defs(ini, S))
     extra = sorted(t for t in ef if t not in allowed and not any(re.search(rf"\b{re.escape(nm)}\b", t) for nm in locs_ if nm != b))
     run.check(rid, not extra, "the DER parser demands nothing beyond well-formedness", key="HSMDongleSignature|extra-conditions", where=ini.loc(),
